@@ -112,6 +112,31 @@ def gen_linear_cases(rng, tier):
     def strict_arr(maxlen=40):
         return sorted(set(sorted_arr(maxlen)))
 
+    # searches, exhaustively: every length 1..70 (every gallop depth, clipped and unclipped last jumps), every target on
+    # and between the elements, start 0 and one random start; plus duplicate runs under a header mask
+    for L in range(1, 71):
+        av = [2 * i + 1 for i in range(L)]
+        starts = [0] if L < 3 else [0, rng.randint(1, L - 1)]
+        for start in starts:
+            for t in range(0, 2 * L + 2):
+                if L > 40 and start != 0 and t % 5:
+                    continue
+                for kind in ("binary_search", "galloping_search"):
+                    cases.append({"k": kind, "a": av, "target": t, "mask": ALL, "start": start})
+    for _ in range({"quick": 40, "thorough": 400, "search": 80}[tier]):
+        L = rng.choice([rng.randint(50, 300), rng.randint(300, 3500)])
+        mask = rng.choice(MASKS)
+        shm = shift_of(mask)
+        keys, v = [], 0
+        while len(keys) < L:
+            v += rng.randint(1, 3)
+            keys += [v] * rng.choice([1, 1, 2, 5])
+        av = sorted(((x << shm) | (rng.getrandbits(shm) if shm else 0)) & ALL for x in keys[:L])
+        for _t in range(6):
+            start = rng.choice([0, 0, rng.randint(0, L - 1)])
+            t = ((rng.randint(0, v + 1) << shm) | (rng.getrandbits(shm) if shm else 0)) & ALL
+            for kind in ("binary_search", "galloping_search"):
+                cases.append({"k": kind, "a": av, "target": t, "mask": mask, "start": start})
     for _ in range(n):
         big = rng.random() < 0.3
         sc = (1 << rng.choice([0, 18, 36, 56])) if big else 1
